@@ -132,22 +132,21 @@ Qed.
 
 Theorem iter_C01 : check_prop 1 e (c_trace c) (c_labels c) = true.
 Proof.
-  cbn [check_prop]. destruct (has_skip (c_trace c) || has_panic (c_trace c)) eqn:E; [reflexivity|].
-  unfold chk_C01. rewrite iter_nodup. cbn [andb]. apply iter_noloss. unfold clean. rewrite E. reflexivity.
+  cbn [check_prop]. rewrite iter_nodup. cbn [andb].
+  destruct (has_skip (c_trace c) || has_panic (c_trace c)) eqn:E; [reflexivity|].
+  apply iter_noloss. unfold clean. rewrite E. reflexivity.
 Qed.
 
 Theorem iter_C06 : check_prop 6 e (c_trace c) (c_labels c) = true.
 Proof.
-  cbn [check_prop]. destruct (has_skip (c_trace c) && negb (has_panic (c_trace c))); [|reflexivity].
-  unfold chk_C06. rewrite iter_C06_stop, iter_nodup, iter_C02, iter_C04_order. reflexivity.
+  cbn [check_prop]. unfold chk_C06. rewrite iter_C06_stop, iter_nodup, iter_C02, iter_C04_order. reflexivity.
 Qed.
 
 Theorem iter_C12 : check_prop 12 e (c_trace c) (c_labels c) = true.
 Proof.
-  cbn [check_prop]. destruct (has_loop (c_trace c)); [|reflexivity]. cbn [andb].
-  destruct (has_skip (c_trace c) || has_panic (c_trace c)) eqn:E; [reflexivity|]. cbn [negb].
-  unfold chk_C12, chk_C01. rewrite iter_C12_shape, iter_nodup, iter_C02, iter_C05. cbn [andb].
-  rewrite !andb_true_r. apply iter_noloss. unfold clean. rewrite E. reflexivity.
+  cbn [check_prop]. rewrite iter_C12_shape, iter_nodup, iter_C02, iter_C05. cbn [andb].
+  destruct (has_skip (c_trace c) || has_panic (c_trace c)) eqn:E; [reflexivity|].
+  apply iter_noloss. unfold clean. rewrite E. reflexivity.
 Qed.
 
 End Iter.
@@ -211,9 +210,9 @@ Theorem iter_C04 sched :
   nowrap (c_labels (exec e (init progs) sched)) ->
   check_prop 4 e (c_trace (exec e (init progs) sched)) (c_labels (exec e (init progs) sched)) = true.
 Proof.
-  intros Hw. cbn [check_prop]. destruct (has_panic (c_trace (exec e (init progs) sched))) eqn:Hnp; [reflexivity|].
-  unfold chk_C04. rewrite (iter_nodup e Hie progs Hp sched Hw), (iter_C04_order e Hie progs Hp sched Hw). cbn [andb].
-  rewrite andb_true_r. apply iter_prefix; assumption.
+  intros Hw. cbn [check_prop]. rewrite (iter_nodup e Hie progs Hp sched Hw), (iter_C04_order e Hie progs Hp sched Hw). cbn [andb].
+  destruct (has_panic (c_trace (exec e (init progs) sched))) eqn:Hnp; [reflexivity|].
+  apply iter_prefix; assumption.
 Qed.
 
 End IterPrefix.
